@@ -85,6 +85,63 @@ def decodeA : Ty → Bytes → DRes
         ⟨o.res.map (fun (v, r') => (.variant i v, r')), max 1 o.req, o.zf⟩
       else decodeA rest bs
 
+
+/-! ## the same input through other readers
+
+`scale.NewDecoder(r)` accepts any `io.Reader`.  All integer paths use `io.ReadFull`, so they see the
+same bytes whatever the reader; `decodeBytes` issues ONE `Read` and ignores the count, so what a
+byte string decodes to depends on how much the reader delivers per call (known finding
+`bytes-chunked-read`). -/
+
+/-- how the input reaches the decoder -/
+inductive RKind
+  | buffer   -- `bytes.Buffer` (scale.Unmarshal) / `bytes.Reader`: min(len(p), available)
+  | half     -- `iotest.HalfReader`: (len(p)+1)/2 bytes per Read
+  | one      -- `iotest.OneByteReader`: one byte per Read
+  | dataErr  -- `iotest.DataErrReader`: chunks of at most 1024, the last data arrives WITH io.EOF
+deriving DecidableEq, Repr
+
+/-- one `Read(b)` with `len(b) = len > 0` at `avail` remaining bytes of a `total`-byte input:
+    the number of bytes delivered and whether an error is returned -/
+def readOnce (k : RKind) (total len avail : Nat) : Nat × Bool :=
+  if avail = 0 then (0, true)
+  else
+    match k with
+    | .buffer => (min len avail, false)
+    | .half => (min ((len + 1) / 2) avail, false)
+    | .one => (1, false)
+    | .dataErr =>
+      let unread := min (1024 - (total - avail) % 1024) avail
+      let n := min len unread
+      (n, decide (n = avail))
+
+/-- `decodeBytes` over a reader of kind `k` -/
+def decBytesR (k : RKind) (total : Nat) (bs : Bytes) : Option (Val × Bytes) :=
+  match C11.decodeUintV bs with
+  | none => none
+  | some (len, r) =>
+    if len > 4294967295 then none
+    else if len = 0 then some (.bytes [], r)
+    else
+      match readOnce k total len r.length with
+      | (_, true) => none
+      | (n, false) =>
+        some (.bytes (r.take n ++ List.replicate (min (len - n) C11.padCap) 0), r.drop n)
+
+/-- the Go codec over a reader of kind `k` (`total` = length of the whole input) -/
+def codecR (k : RKind) (total : Nat) : Codec where
+  encP := C11.encP
+  decP p bs := match p with
+    | .bytes => decBytesR k total bs
+    | .str => decBytesR k total bs
+    | _ => (C11.decPA p bs).res
+  encLen := C11.encodeUint
+  decLen := C11.decLen
+
+/-- `NewDecoder(r).Decode` over a reader of kind `k` -/
+def decodeR (k : RKind) (t : Ty) (input : Bytes) : Option (Val × Bytes) :=
+  decode (codecR k input.length) t input
+
 /-- does the type contain a pointer to a varying data type (known finding `opt-vdt`) -/
 def hasOptVdt : Ty → Bool
   | .prim _ => false
